@@ -37,6 +37,10 @@
 #define E_REPLAY 11
 #define E_PLANOPS 12
 #define E_REPLAY_MANY 13
+#define E_CONSTRUCT_PAIR 14
+#define E_COPY_STEP 15
+#define E_PAYLOAD 16
+#define E_PLAN_STEP 17
 #define M_SELECT 1
 #define M_ENTRY_GUARD 4
 #define M_ENTER 5
@@ -178,9 +182,22 @@ static int decide(int s, int m) {
   budget--; return (kind << 8) | dest;
 }
 #else
+#ifdef P_C10
+static int dec_fix[NS][20]; static _Bool dec_set[NS][20];    /* one decision per (state, method), shared by both runs */
+static int which;                                             /* 0 = first instance, 1 = second instance */
+static int seq[2][48], seqn[2];
+#endif
 static int decide(int s, int m) {
   if (!phase) return 0;
+  { int mm_ = m & 31;   /* lifecycle / select / plan-status callbacks take no decision: only guards, update* and react* may */
+    if (mm_ == M_ENTER || mm_ == M_REENTER || mm_ == M_EXIT || mm_ == M_SELECT || mm_ == M_QUERY) return 0; }
+#ifdef P_C10
+  if (dec_set[s][m & 31]) return dec_fix[s][m & 31];
+#endif
   int d = nondet_int();
+#ifdef P_C10
+  dec_set[s][m & 31] = 1; dec_fix[s][m & 31] = d;
+#endif
   if (d == 0) return 0;
   int guard = (m & 31) == M_ENTRY_GUARD || (m & 31) == M_EXIT_GUARD;
   if (d == -1) { __CPROVER_assume(guard && cancel_ok); return -1; }
@@ -191,6 +208,12 @@ static int decide(int s, int m) {
 #ifdef CB_DEST_NONROOT
   __CPROVER_assume(dest > 0);
 #endif
+#ifdef KF_C04_ORTHO_ROOT_REQ
+  /* known finding F15: on an ORTHOGONAL-ROOT machine a request aimed at the root, combined in one step with a request into
+     one sub-region, lets the other sub-regions switch without their guards being invoked; excluded: requests to the root
+     of an orthogonal-root machine issued by callbacks */
+  __CPROVER_assume(!(ROOT_IS_ORTHO && dest == 0));
+#endif
 #ifdef KF_C11_LEFTOVER
   /* known finding: a request issued by a guard in the LAST allowed round stays in the queue when processing stops, and the
      library's own HFSM2_ASSERT(_core.requests.count() == 0) at the end of processTransitions() then trips */
@@ -199,10 +222,36 @@ static int decide(int s, int m) {
   __CPROVER_assume(budget > 0); budget--;
   note_request(kind, dest);
   if (guard) n_sub++;
+#ifdef P_C10
+  dec_set[s][m & 31] = 1; dec_fix[s][m & 31] = d;
+#endif
   return d;
 }
 #endif
 
+#ifdef P_C16
+/* two interleaved records: ground truth from the callbacks / the decisions the stub takes, and the logger's record */
+static int lg_fresh, lg_s, lg_m, lg_bad_method, lg_extra, lg_wrong, lg_missing, n_log;
+static int ex_tr, ex_tr_o, ex_tr_t, ex_tr_d, ex_cancel, ex_cancel_o, ex_sel, ex_sel_s, ex_sel_v;
+static void lg_flush(void) { if (ex_tr || ex_cancel || ex_sel) lg_missing = 1; ex_tr = ex_cancel = ex_sel = 0; }
+void vf_log(uint32_t k, uint32_t a, uint32_t b, uint32_t c) {
+  if (!phase) return;                                        /* set-up (construction / first activation) is not part of the step */
+  n_log++; DBG("  log kind=%u a=%u b=%u c=%u\n", k, a, b, c);
+  if (k == 0) { if (lg_fresh) lg_extra = 1; lg_fresh = 1; lg_s = (int)a; lg_m = (int)b; }
+  else if (k == 1) { if (!ex_tr || (int)a != ex_tr_o || (int)b != ex_tr_t || (int)c != ex_tr_d) lg_wrong = 1; ex_tr = 0; }
+  else if (k == 4) { if (!ex_cancel || (int)a != ex_cancel_o) lg_wrong = 1; ex_cancel = 0; }
+  else if (k == 5) { if (!ex_sel || (int)a != ex_sel_s || (int)b != ex_sel_v) lg_wrong = 1; ex_sel = 0; }
+}
+static void lg_method(int s, int m) {
+  lg_flush();
+  if (!(lg_fresh && lg_s == s && lg_m == m)) lg_bad_method = 1;
+  lg_fresh = 0;
+}
+#endif
+#ifdef P_C06
+static int pl_n, pl_exists; static uint8_t pl_o[2], pl_d[2], pl_k[2];
+static int dec_of[NS], n_planS[NS], n_planF[NS];
+#endif
 #ifdef P_C05
 static int ts[NS][3][20]; static int dup_cb, cons_s[4] = {-1, -1, -1, -1};
 #endif
@@ -215,6 +264,10 @@ static int guard_in_replay, sub_kind, sub_dest, sub_origin = -1, sub_round, r1c,
 #endif
 uint32_t vf_cb(uint32_t s, uint32_t m, uint8_t* self) {
   if (!phase) return 0;
+#ifdef P_C10
+  if (seqn[which] < 48) { seq[which][seqn[which]] = (int)(s * 32 + (m & 31)); } seqn[which]++;
+  { int dd = decide((int)s, (int)m); VF_OBS(s * 64 + m); return (uint32_t)dd; }
+#endif
 #ifdef P_C09
   if (phase == 2) { if ((m & 31) == M_ENTRY_GUARD || (m & 31) == M_EXIT_GUARD) guard_in_replay = 1; return 0; }
 #endif
@@ -243,8 +296,10 @@ uint32_t vf_cb(uint32_t s, uint32_t m, uint8_t* self) {
   else if (mm == M_REENTER) { n_reenter[s]++; ev_reenter[s] = clk; n_life++; }
   if (mm == M_ENTRY_GUARD || mm == M_EXIT_GUARD) {
     n_guard_calls++;
-    /* round boundary: first guard, a guard after a cancel, an exit guard after an entry guard, or a repeated guard */
-    if (rounds == 0 || round_cancelled || (mm == M_EXIT_GUARD && round_has_entry) ||
+    /* round boundary: the first guard; an exit guard after an entry guard; a repeated guard; an entry guard after the exit
+       phase was cancelled (the entry phase of that round is skipped).  Guards of orthogonal siblings keep running in the
+       SAME round after one of them cancelled, so "a guard after a cancel" alone is no boundary. */
+    if (rounds == 0 || (mm == M_EXIT_GUARD && round_has_entry) || (mm == M_ENTRY_GUARD && round_cancelled && !round_has_entry) ||
         (mm == M_EXIT_GUARD ? round_seen_exit[s] : round_seen_entry[s])) new_round();
     if (mm == M_ENTRY_GUARD) { round_has_entry = 1; round_seen_entry[s] = 1; g_entry[s] = clk; } else { round_seen_exit[s] = 1; g_exit[s] = clk; }
 #ifdef MON_GUARD
@@ -273,7 +328,18 @@ uint32_t vf_cb(uint32_t s, uint32_t m, uint8_t* self) {
     }
   }
 #endif
+#ifdef P_C16
+  lg_method((int)s, mm);
+#endif
   int d = decide(s, m);
+#ifdef P_C06
+  if (mm == M_PLAN_OK) n_planS[s]++; if (mm == M_PLAN_FAIL) n_planF[s]++;
+  if (mm == M_UPDATE) { __CPROVER_assume(d == 0 || s == 0 || st_parent[s] == 0); dec_of[s] = d; }   /* only the root head and its direct sub-states decide */
+#endif
+#ifdef P_C16
+  if (d == -1) { ex_cancel = 1; ex_cancel_o = (int)s; }
+  else if (d > 0 && d < 0x1000) { ex_tr = 1; ex_tr_o = (int)s; ex_tr_t = ((d >> 8) & 0xf) - 1; ex_tr_d = d & 0xff; }
+#endif
 #ifdef P_C05
   if (d == 0x3000) { int ph = mm == M_PRE_REACT ? 0 : mm == M_REACT ? 1 : mm == M_POST_REACT ? 2 : 3; if (cons_s[ph] < 0) cons_s[ph] = (int)s; }
 #endif
@@ -288,13 +354,20 @@ uint32_t vf_cb(uint32_t s, uint32_t m, uint8_t* self) {
 static int sel_calls, rank_calls, util_calls, rng_calls;
 static uint8_t sel_val[NC]; static _Bool sel_fixed;
 uint32_t vf_select(uint32_t s) {
+#ifdef P_C16
+  if (phase) lg_method((int)s, M_SELECT);
+#endif
   if (sel_fixed) { sel_calls++; return sel_val[st_compo[s]]; }
   unsigned v = nondet_uchar();
 #ifdef TV_WALK
   v %= (unsigned)st_width[s];
 #endif
   __CPROVER_assume(v < (unsigned)st_width[s]);      /* documented precondition: select() returns a valid index */
-  sel_calls++; VF_OBS(v); return v;
+  sel_calls++; VF_OBS(v);
+#ifdef P_C16
+  if (phase) { ex_sel = 1; ex_sel_s = (int)s; ex_sel_v = (int)v; }
+#endif
+  return v;
 }
 /* rank()/utility() answers are one symbolic value per STATE, fixed for the step (chosen in main): the order in which
    the library evaluates them is unspecified C++ evaluation order and may differ between compilers */
@@ -307,16 +380,43 @@ float vf_utility(uint32_t s) { util_calls++; return util_f[s]; }
 float vf_utility(uint32_t s) { util_calls++; return 0.25f * (float)util_k[s]; }
 #endif
 static float rng_last;
-float vf_rng(void) { float r = nondet_float();
+#ifdef P_C10
+static float rng_fix[4]; static _Bool rng_fix_set[4]; static int rng_idx[2];
+#endif
+float vf_rng(void) {
+#ifdef P_C10
+  /* the generator yields the same numbers to both instances: the k-th call of each run gets the k-th number */
+  { int k = rng_idx[which]++; if (k < 4 && rng_fix_set[k]) { rng_calls++; return rng_fix[k]; } }
+#endif
+  float r = nondet_float();
 #ifdef TV_WALK
   if (!(r >= 0.0f && r < 1.0f)) r = 0.5f;
 #endif
-  __CPROVER_assume(r >= 0.0f && r < 1.0f); rng_calls++; rng_last = r; return r; }
+  __CPROVER_assume(r >= 0.0f && r < 1.0f); rng_calls++; rng_last = r;
+#ifdef P_C10
+  { int k = rng_idx[which] - 1; if (k >= 0 && k < 4) { rng_fix[k] = r; rng_fix_set[k] = 1; } }
+#endif
+  return r; }
 uint32_t vf_payload(uint32_t s, uint32_t m) { return nondet_uint(); }
+#ifndef P_C16
 void vf_log(uint32_t k, uint32_t a, uint32_t b, uint32_t c) { }
+#endif
 static int n_break;
 void hfsm2_verif_break(void) { n_break++; __CPROVER_assert(0, "C11 a library consistency assertion (HFSM2_ASSERT / HFSM2_BREAK) tripped"); }
+#ifdef P_C14
+#define NOPAY 0xfffffffeu
+static uint32_t pay_val[2]; static _Bool pay_set[2]; static uint8_t pay_dest[2], pay_kind[2]; static int pay_n, pay_bad_guard, pay_bad_enter, pay_seen_guard, pay_seen_enter;
+void vf_obs(uint32_t w, uint32_t a, uint32_t b, uint8_t* p) {
+  if (!phase) return;
+  unsigned i = a & 0xff, dst = (a >> 8) & 0xffff, ty = a >> 24;
+  uint32_t want = (i < 2 && pay_set[i]) ? pay_val[i] : NOPAY;
+  int ok = i < (unsigned)pay_n && dst == pay_dest[i] && ty + 1 == pay_kind[i] && b == want;
+  if (w == 1) { pay_seen_guard = 1; if (!ok) pay_bad_guard = 1; }
+  if (w == 2) { pay_seen_enter = 1; if (!ok) pay_bad_enter = 1; }
+}
+#else
 void vf_obs(uint32_t w, uint32_t a, uint32_t b, uint8_t* p) { }
+#endif
 
 /* ------------------------------------------------------------------ C02 reference model (written from the statement) */
 #if defined(P_C02) || defined(P_C04C)
@@ -440,7 +540,11 @@ static void expect_phase(int mm, int headfirst, int ph) {
 static int activated = 1;
 static void construct(void) {
 #ifdef HAVE_LOGGER
+#ifdef LOGGER_DETACHED
+  vf_logger_construct(&lg); vf_construct(I, 0);
+#else
   vf_logger_construct(&lg); vf_construct(I, &lg);
+#endif
 #else
   vf_construct(I);
 #endif
@@ -479,7 +583,8 @@ static void choose_utilities(void) {
     util_f[s] = nondet_float();
     __CPROVER_assume(util_f[s] >= 0.0f && util_f[s] <= 1.0e6f);     /* documented: utilities are non-negative and finite */
 #ifdef C12_GRID
-    __CPROVER_assume(util_f[s] == (float)(int)util_f[s]);
+    { unsigned gk = nondet_uchar();                 /* utilities on a grid of C12_GRID quarter steps; r stays a full-range float */
+      __CPROVER_assume(gk < C12_GRID); util_f[s] = 0.25f * (float)gk; }
 #endif
   }
   return;
@@ -497,6 +602,20 @@ static void choose_utilities(void) {
      documented precondition of randomize); zero utilities and the float edge cases are C12's kernel queries */
 #endif
 }
+#ifdef P_C16S
+static signed char act0[NS];
+static void havoc_report(void) {
+  /* Inv for structure-report fixtures: the report mirrors the (havocked) configuration; history values arbitrary but
+     with the sign of the current condition (0 only before the first update) */
+  const uint8_t* a = vf_compo_active(I);
+  for (int x = 0; x < NS; x++) {
+    *vf_structure_active_raw(I, x) = (unsigned char)m_active(a, x);
+    act0[x] = (signed char)nondet_uchar();
+    __CPROVER_assume(act0[x] != 0 && ((act0[x] > 0) == (m_active(a, x) != 0)));
+    vf_activity_raw(I)[x] = act0[x];
+  }
+}
+#endif
 static void snapshot(void) {
   const uint8_t *a = vf_compo_active(I), *r = vf_compo_resumable(I);
   for (int c = 0; c < NC; c++) { pre_a[c] = a[c]; pre_r[c] = r[c]; }
@@ -532,13 +651,54 @@ int main(void) {
   __CPROVER_assert(inv_raw() || 1, "tv walk done");
   return 0;
 #endif
+#if ENTRY == E_CONSTRUCT_PAIR
+  /* C10: two instances built in storage with ARBITRARY (different) prior contents, same constructor arguments, same
+     callback answers: every callback and the resulting configuration must agree (incl. the first activation that the
+     constructor of an automatically activated machine performs) */
+  { static struct T_struct_VfInst second_;
+    uint8_t* m0 = (uint8_t*)I; uint8_t* m1 = (uint8_t*)&second_;
+    for (unsigned i = 0; i < sizeof inst; i++) {
+      uint8_t j0 = nondet_uchar();
+      uint8_t j1 = nondet_uchar();
+      m0[i] = j0; m1[i] = j1;
+    }
+    choose_utilities();
+    sel_fixed = 1;
+    for (int c = 0; c < NC; c++) {
+      sel_val[c] = nondet_uchar();
+      __CPROVER_assume(sel_val[c] < co_width[c]);
+    }
+    phase = 1; budget = 0; cancel_ok = 0;
+    which = 0;
+#ifdef HAVE_LOGGER
+    vf_logger_construct(&lg); vf_construct(I, &lg);
+#else
+    vf_construct(I);
+#endif
+    which = 1;
+#ifdef HAVE_LOGGER
+    vf_construct(&second_, &lg);
+#else
+    vf_construct(&second_);
+#endif
+    phase = 0;
+    END;
+    __CPROVER_assert(seqn[0] == seqn[1], "C10 both instances invoke as many callbacks during construction");
+    for (int i = 0; i < 48; i++) if (i < seqn[0] && i < seqn[1]) __CPROVER_assert(seq[0][i] == seq[1][i], "C10 construction invokes the same callbacks whatever the storage held before");
+    const uint8_t *a0 = vf_compo_active(I), *r0 = vf_compo_resumable(I), *a1 = vf_compo_active(&second_), *r1 = vf_compo_resumable(&second_);
+    for (int c = 0; c < NC; c++) __CPROVER_assert(a0[c] == a1[c] && r0[c] == r1[c], "C10 the first activation is the same whatever the storage held before");
+    for (int s = 0; s < NS; s++) __CPROVER_assert(vf_is_active(I, s) == vf_is_active(&second_, s), "C10 both instances report the same active states");
+    __CPROVER_assert(vf_requests_count(I) == 0 && vf_requests_count(&second_) == 0, "C10 fresh instances have an empty queue");
+    return 0; }
+#endif
 #ifdef FROM_CONSTRUCTION
   /* whole-life: monitor the activation performed by the constructor (Automatic) / enter() (Manual) as well */
   phase = 1; budget = 0; cancel_ok = 0;
   construct();
 #if MANUAL
   activated = 0;
-  if (nondet_bool()) { vf_enter(I); activated = 1; }
+  _Bool enter_now = nondet_bool();
+  if (enter_now) { vf_enter(I); activated = 1; }
 #endif
   __CPROVER_assert(inv_raw(), "C01 Inv holds after construction / first activation");
   { const uint8_t *a = vf_compo_active(I), *r = vf_compo_resumable(I); for (int c = 0; c < NC; c++) { pre_a[c] = a[c]; pre_r[c] = r[c]; } }
@@ -546,6 +706,9 @@ int main(void) {
 #else
   construct();
   havoc(); snapshot();
+#ifdef P_C16S
+  havoc_report();
+#endif
 #endif
   choose_utilities();
 #ifdef P_C09
@@ -584,6 +747,9 @@ int main(void) {
   __CPROVER_assume(dest < NS);
 #endif
   note_request(KIND, dest);
+#ifdef P_C16
+  ex_tr = 1; ex_tr_o = 0xffff; ex_tr_t = KIND - 1; ex_tr_d = (int)dest;
+#endif
 #if defined(P_C02)
   rq_kind[0] = KIND; rq_dest[0] = dest; rq_n = 1;
 #endif
@@ -726,6 +892,72 @@ int main(void) {
     cancel_ok = 0; budget = 0;
     vf_replay_many(I, n, d0, k0 - 1, d1, k1 - 1);           /* histories longer than the history capacity included */
   }
+#elif ENTRY == E_COPY_STEP
+  /* C10: a copy of an instance continues exactly as the original would (same decisions for the same callbacks) */
+  { static struct T_struct_VfInst copy_;
+    phase = 0;
+#if HAVE_PLANS
+    unsigned np = nondet_uchar();
+    __CPROVER_assume(np <= 2);
+    for (unsigned i = 0; i < 2; i++) if (i < np) {
+      unsigned rg = nondet_uchar();
+      unsigned o = nondet_uchar();
+      unsigned d = nondet_uchar();
+      unsigned k = nondet_uchar();
+      __CPROVER_assume(rg < NR && o < NS && d < NS && k >= 1 && k <= 3);
+      vf_plan_append(I, rg, o, d, k);
+    }
+    plan_ok = 1;
+#endif
+    vf_copy(&copy_, I);
+    phase = 1; budget = CB_BUDGET; which = 0; vf_update(I);
+    int b0 = budget;
+    budget = CB_BUDGET; which = 1; vf_update(&copy_);
+    phase = 0;
+    END;
+    __CPROVER_assert(seqn[0] == seqn[1], "C10 the copy invokes as many callbacks as the original");
+    for (int i = 0; i < 48; i++) if (i < seqn[0] && i < seqn[1]) __CPROVER_assert(seq[0][i] == seq[1][i], "C10 the copy invokes the same callbacks in the same order as the original");
+    const uint8_t *a0 = vf_compo_active(I), *r0 = vf_compo_resumable(I), *a1 = vf_compo_active(&copy_), *r1 = vf_compo_resumable(&copy_);
+    for (int c = 0; c < NC; c++) __CPROVER_assert(a0[c] == a1[c] && r0[c] == r1[c], "C10 original and copy end in the same configuration");
+#if HAVE_PLANS
+    for (unsigned g = 0; g < NR; g++) __CPROVER_assert(vf_plan_len(I, g) == vf_plan_len(&copy_, g), "C10 original and copy hold the same plans afterwards");
+    __CPROVER_assert(vf_task_count(I) == vf_task_count(&copy_), "C10 original and copy hold the same number of tasks");
+#endif
+    __CPROVER_assert(vf_requests_count(I) == vf_requests_count(&copy_), "C10 original and copy have the same queue");
+  }
+#elif ENTRY == E_PAYLOAD
+  /* C14: two queued external requests, each with or without a payload (symbolic, independent values), then update() */
+  cancel_ok = 0; budget = 0;
+  for (int i = 0; i < NREQ; i++) {
+    unsigned kind = nondet_uchar();
+    unsigned dest = nondet_uchar();
+    uint32_t pv = nondet_uint();
+    _Bool with = nondet_bool();
+    __CPROVER_assume(kind >= 1 && kind <= 4 && dest > 0 && dest < NS && pv < 0xfffffff0u);
+    pay_val[i] = pv; pay_set[i] = with; pay_dest[i] = (uint8_t)dest; pay_kind[i] = (uint8_t)kind; pay_n = i + 1;
+    if (with) vf_request_with(I, kind, dest, pv); else vf_request(I, kind, dest);
+  }
+  vf_update(I);
+#elif ENTRY == E_PLAN_STEP
+  /* C06: a plan of up to 2 symbolic tasks on the root region, built by real append calls; in the step the active
+     sub-state of the root and the root head may succeed()/fail(); no transition is requested by callbacks */
+  phase = 0;
+  pl_n = nondet_uchar();
+  __CPROVER_assume(pl_n <= 2);
+  for (unsigned i = 0; i < 2; i++) if (i < (unsigned)pl_n) {
+    unsigned o = nondet_uchar();
+    unsigned d = nondet_uchar();
+    unsigned k = nondet_uchar();
+    __CPROVER_assume(o >= 1 && o < NS && st_parent[o] == 0 && d >= 1 && d < NS && k >= 1 && k <= 3);
+    pl_o[i] = (uint8_t)o; pl_d[i] = (uint8_t)d; pl_k[i] = (uint8_t)k;
+    __CPROVER_assume(vf_plan_append(I, 0, o, d, k));
+  }
+  pl_exists = vf_plan_exists(I, 0);
+  _Bool attached = nondet_bool();
+  if (attached) { vf_plan_exists_set(I, 0, 1); pl_exists = 1; }     /* a plan may have been attached and emptied earlier */
+  phase = 1; plan_ok = 1; cancel_ok = 0; budget = 0;
+  vf_update(I);
+#elif ENTRY == E_CONSTRUCT_PAIR
 #elif ENTRY == E_NONE
 #else
 #error "ENTRY"
@@ -841,7 +1073,12 @@ int main(void) {
   }
 #ifdef C13_RESUME
   /* the sub-state reported resumable for a region is the one a subsequent resume of that region activates */
-  { int c = st_compo[DEST]; __CPROVER_assert(a[c] == (pre_r[c] != INVALID ? pre_r[c] : 0), "C13 resume(region) activates the sub-state reported resumable, else the first");
+  { int c = st_compo[DEST];
+#ifdef KF_C13_ORTHO_ROOT_REGION
+    /* known finding F13 (see C02): a request whose destination is an ACTIVE region with only orthogonal ancestors is ignored */
+    if (!(st_fork[DEST] < 0 && DEST != 0 && pre_a[c] != INVALID))
+#endif
+    __CPROVER_assert(a[c] == (pre_r[c] != INVALID ? pre_r[c] : 0), "C13 resume(region) activates the sub-state reported resumable, else the first");
     if (pre_r[c] != INVALID) __CPROVER_assert(m_resumable(pre_r, st_child[DEST][pre_r[c]]), "C13 isResumable named that sub-state"); }
 #endif
   __CPROVER_assert(inv_raw(), "C01 Inv holds after the step");
@@ -916,6 +1153,68 @@ int main(void) {
     }
     __CPROVER_assert(rng_calls == 1, "C12 exactly one random number per random region resolved");
 #endif
+    __CPROVER_assert(inv_raw(), "C01 Inv holds after the step"); }
+#endif
+#ifdef P_C16
+  lg_flush();
+#ifdef LOGGER_DETACHED
+  __CPROVER_assert(n_log == 0, "C16 a detached logger receives nothing");
+#else
+  __CPROVER_assert(!lg_bad_method, "C16 every user callback the machine invokes is preceded by its recordMethod(state, method)");
+#ifndef C16_VERBOSE
+  __CPROVER_assert(!lg_extra && !lg_fresh, "C16 every recordMethod is followed by exactly that callback (reported exactly once)");
+#endif
+  __CPROVER_assert(!lg_wrong, "C16 transition / cancellation / select-resolution records carry the right state identifiers and kinds, in order");
+  __CPROVER_assert(!lg_missing, "C16 every request, cancellation and select resolution is reported");
+#endif
+  __CPROVER_assert(inv_raw(), "C01 Inv holds after the step");
+#endif
+#ifdef P_C16S
+  for (int x = 0; x < NS; x++) {
+    __CPROVER_assert(vf_structure_active(I, x) == vf_is_active(I, x), "C16 structure()[i].isActive equals isActive(i) after the step");
+    int h0 = act0[x], h1 = vf_activity(I, x), now = vf_is_active(I, x);
+    int want = now ? (h0 > 0 ? (h0 < 127 ? h0 + 1 : 127) : 1) : (h0 < 0 ? (h0 > -128 ? h0 - 1 : -128) : -1);
+    __CPROVER_assert(h1 == want, "C16 activityHistory counts consecutive report updates in the same condition, saturating");
+    __CPROVER_assert((h1 > 0) == (now != 0), "C16 activityHistory is positive for active and negative for inactive states");
+  }
+#endif
+#ifdef P_C14
+  __CPROVER_assert(!pay_bad_guard, "C14 guards see every pending transition with exactly its own payload (none if it has none)");
+  __CPROVER_assert(!pay_bad_enter, "C14 states being entered read exactly the payloads of the current transitions");
+  { unsigned pc = vf_prev_count(I);
+    if (rounds >= 1) __CPROVER_assert(pc == (unsigned)pay_n, "C14 the approved batch is recorded");
+    for (unsigned i = 0; i < 2; i++) if (i < pc && i < (unsigned)pay_n)
+      __CPROVER_assert(vf_prev_payload(I, i) == (pay_set[i] ? pay_val[i] : NOPAY) && vf_prev_dest(I, i) == pay_dest[i], "C14 previousTransitions() carries each request's own payload unchanged");
+    for (int x = 0; x < NS; x++) { int li = vf_last_to(I, x);
+      if (li >= 0 && li < 2) __CPROVER_assert(vf_last_to_payload(I, x) == (pay_set[li] ? pay_val[li] : NOPAY), "C14 lastTransitionTo(s) exposes the payload of the request that activated s"); } }
+  __CPROVER_assert(inv_raw(), "C01 Inv holds after the step");
+#endif
+#ifdef P_C06
+  { int X = st_child[0][pre_a[0]];                                /* the active sub-state of the root region */
+    int headS = dec_of[0] == 0x1000, headF = dec_of[0] == 0x2000, subS = dec_of[X] == 0x1000, subF = dec_of[X] == 0x2000;
+    int ex_n = 0, ex_d[2], ex_k[2], fired[2] = {0, 0};
+    if (!headS && !headF && pl_exists && subS && !subF) {
+      for (int i = 0; i < 2; i++) { if (i >= pl_n) break; if (pl_o[i] != X) break; ex_d[ex_n] = pl_d[i]; ex_k[ex_n] = pl_k[i]; fired[i] = 1; ex_n++; }
+    }
+    int wantS = !headS && !headF && pl_exists && subS && !subF && pl_n == 0;
+    int wantF = !headS && !headF && pl_exists && subF;
+    __CPROVER_assert(n_planS[0] == wantS, "C06 the head receives planSucceeded exactly when a sub-state succeeded, none failed and the attached plan has no tasks left");
+    __CPROVER_assert(n_planF[0] == wantF, "C06 the head receives planFailed exactly when a sub-state failed");
+    unsigned left = 0; for (int i = 0; i < pl_n; i++) if (!fired[i]) left++;
+    __CPROVER_assert(vf_plan_len(I, 0) == left, "C06 exactly the executed tasks are removed from the plan (never twice, never others)");
+    { int j = 0; for (int i = 0; i < 2; i++) if (i < pl_n && !fired[i]) { __CPROVER_assert(vf_plan_item(I, 0, j, 0) == pl_o[i] && vf_plan_item(I, 0, j, 1) == pl_d[i] && vf_plan_item(I, 0, j, 2) == (unsigned)(pl_k[i] - 1), "C06 remaining tasks keep their order and contents"); j++; } }
+    /* the transitions issued on behalf of the region head, as recorded by the history (guards approve) */
+    unsigned pc = vf_prev_count(I);
+    if (ex_n > 0 && ex_n <= NC) {
+      __CPROVER_assert(pc == (unsigned)ex_n, "C06 every task whose origin is active and succeeded (and that no inactive-origin task precedes) is executed in this step");
+      for (int i = 0; i < 2; i++) if (i < ex_n && i < (int)pc) {
+        __CPROVER_assert(vf_prev_dest(I, i) == (unsigned)ex_d[i] && vf_prev_origin(I, i) == 0, "C06 executed tasks are requested in plan order on behalf of the region head");
+#ifndef KF_C06_TASK_KIND
+        __CPROVER_assert(vf_prev_type(I, i) == (unsigned)(ex_k[i] - 1), "C06 a task is executed as a transition of the kind it was created with");
+#endif
+      }
+    } else if (ex_n == 0) __CPROVER_assert(pc == 0, "C06 no task is executed unless its origin is active and reported success in this step");
+    for (int x = 0; x < NS; x++) __CPROVER_assert(!vf_task_success(I, x) && !vf_task_failure(I, x), "C06 success/failure marks never survive the step that consumed them");
     __CPROVER_assert(inv_raw(), "C01 Inv holds after the step"); }
 #endif
 #ifdef P_C13A
